@@ -121,6 +121,7 @@ var c09Rcpts = []string{
 	"plain@example.org",
 	"test@тест.example.org", // IDN domain: sent as A-label when SMTPUTF8 is missing
 	"тест@example.org",      // non-ASCII local part: not convertible, refused locally without SMTPUTF8
+	"test@xn--e1aybc.example.org", // the A-label spelling of the IDN recipient: both go on the wire as the same string
 	"Upper@Example.ORG",
 	"other@example.org",
 }
